@@ -1,7 +1,997 @@
-import LyonVerif.Model.Algo.Measure
-import LyonVerif.Model.Algo.Walk
-import LyonVerif.Lemmas.Field
+/-
+  C19 — measuring, sampling, walking and splitting by distance are mutually consistent.
+
+  The statements are about the model functions of `Model/Algo/Measure.lean` and
+  `Model/Algo/Walk.lean` — the same `def`s the correspondence check runs at `Float32` against
+  `lyon_algorithms::{measure, walk, length}` — instantiated at an arbitrary linearly ordered
+  field `K`.  The 1-D core (edge table = list of cumulative distances, cursor search, parameter
+  interpolation, the `add_segment` pieces of `split_range`, the walker's leftover arithmetic) is
+  proved for ALL tables / cursors / distances / query histories / patterns; the 2-D claims go
+  through `LineSegment::sample` (C10).  What is not a theorem: IEEE rounding (oracle allowance),
+  and curved segments (flattened through lyon_geom, C09; oracle only).
+-/
+import LyonVerif.Lemmas.Measure
+import Mathlib.Tactic.NormNum
+import Mathlib.Tactic.IntervalCases
+import Mathlib.Algebra.Order.Field.Rat
+
+set_option linter.unusedSectionVars false
+set_option linter.unusedVariables false
+
+geom_all Lyon.Measure
+geom_all Lyon.Walk
 
 namespace Lyon.C19
-theorem stub : True := trivial
+open Lyon Lyon.Measure Scalar
+
+variable {K : Type} [Field K] [LinearOrder K] [IsStrictOrderedRing K]
+
+/-- the table is non-decreasing -/
+def Mono (es : List (Edge K)) : Prop :=
+  ∀ i j, i ≤ j → j < es.length → dAt es i ≤ dAt es j
+
+theorem length_eq (es : List (Edge K)) (h : 0 < es.length) : length es = dAt es (es.length - 1) := by
+  unfold length
+  have : es.isEmpty = false := by
+    cases es with
+    | nil => simp at h
+    | cons a r => rfl
+  simp [this]
+
+/-! ### `move_cursor` -/
+
+/-- The search part of `move_cursor` (reached when `dist ≠ 0` and the cursor is out of bounds):
+whichever of the four scans runs, the new cursor brackets `dist`, strictly on the left.
+No monotonicity of the table is needed for this. -/
+theorem search_in_bounds (es : List (Edge K)) (c : Nat) (dist : K) (linF linB : Bool)
+    (h0 : dAt es 0 = 0) (hc : c < es.length) (hpos : 0 < dist) (hlen : dist ≤ length es)
+    (hnb : ¬ inBounds es c dist) :
+    1 ≤ (if dAt es c < dist then searchFwd linF es c dist else searchBwd linB es c dist) ∧
+    (if dAt es c < dist then searchFwd linF es c dist else searchBwd linB es c dist) < es.length ∧
+    dAt es ((if dAt es c < dist then searchFwd linF es c dist else searchBwd linB es c dist) - 1) < dist ∧
+    dist ≤ dAt es (if dAt es c < dist then searchFwd linF es c dist else searchBwd linB es c dist) := by
+  have hL : length es = dAt es (es.length - 1) := length_eq es (by omega)
+  rw [hL] at hlen
+  by_cases hlt : dAt es c < dist
+  · rw [if_pos hlt]
+    have hcl : c ≠ es.length - 1 := by
+      intro h
+      rw [← h] at hlen
+      exact absurd hlt (not_lt.mpr hlen)
+    cases linF with
+    | true =>
+      simp only [searchFwd, if_true]
+      have := fwdLin_spec es dist (es.length - 1) hlen (es.length - c - 1) c (by omega) (by omega) hlt
+      exact ⟨by omega, by omega, this.2.2.1, this.2.2.2⟩
+    | false =>
+      simp only [searchFwd, Bool.false_eq_true, if_false]
+      have := partPt_spec (ltPred es dist) (c + 1) es.length es.length (c + 1) es.length
+        (by omega) (by omega) (Or.inl rfl) (Or.inl rfl)
+      obtain ⟨h1, h2, h3, h4⟩ := this
+      have hlt' : dAt es (partPt (ltPred es dist) es.length (c + 1) es.length - 1) < dist := by
+        rcases h3 with h3 | h3
+        · rw [h3]; simpa using hlt
+        · simpa [ltPred] using h3
+      have hne : partPt (ltPred es dist) es.length (c + 1) es.length ≠ es.length := by
+        intro h
+        rw [h] at hlt'
+        exact absurd hlt' (not_lt.mpr hlen)
+      refine ⟨by omega, by omega, hlt', ?_⟩
+      rcases h4 with h4 | h4
+      · exact absurd h4 hne
+      · simpa [ltPred] using h4
+  · rw [if_neg hlt]
+    have hle : dist ≤ dAt es c := not_lt.mp hlt
+    have hc0 : c ≠ 0 := by
+      intro h
+      rw [h, h0] at hle
+      exact absurd hpos (not_lt.mpr hle)
+    have hprev : dist < dAt es (c - 1) := by
+      by_contra h
+      exact hnb ⟨hc0, not_lt.mp h, hle⟩
+    cases linB with
+    | true =>
+      simp only [searchBwd, if_true]
+      have := bwdLin_spec es dist (c - 1) (le_of_lt hprev)
+      have hcc : c - 1 + 1 = c := by omega
+      rw [hcc] at this
+      obtain ⟨h1, h2, h3⟩ := this
+      have hp0 : bwdLin es dist c ≠ 0 := by
+        intro h
+        rw [h, h0] at h3
+        exact absurd hpos (not_lt.mpr h3)
+      refine ⟨by omega, by omega, ?_, h3⟩
+      rcases h2 with h2 | h2
+      · exact absurd h2 hp0
+      · exact h2
+    | false =>
+      simp only [searchBwd, Bool.false_eq_true, if_false]
+      have := partPt_spec (ltPred es dist) 0 c (c + 1) 0 c (by omega) (by omega) (Or.inl rfl) (Or.inl rfl)
+      obtain ⟨h1, h2, h3, h4⟩ := this
+      have hp0 : partPt (ltPred es dist) (c + 1) 0 c ≠ 0 := by
+        intro h
+        rw [h] at h4
+        rcases h4 with h4 | h4
+        · exact hc0 h4.symm
+        · have : ¬ (dAt es 0 < dist) := by simpa [ltPred] using h4
+          rw [h0] at this
+          exact this hpos
+      refine ⟨by omega, by omega, ?_, ?_⟩
+      · rcases h3 with h3 | h3
+        · exact absurd h3 hp0
+        · simpa [ltPred] using h3
+      · rcases h4 with h4 | h4
+        · rw [h4]; exact hle
+        · simpa [ltPred] using h4
+
+/-- **move_cursor_in_bounds.**  For every non-decreasing table starting at 0 with positive
+length, every prior cursor and every `dist ∈ [0, length]`, the new cursor `c'` satisfies
+`1 ≤ c' < len` and `edges[c'-1].distance ≤ dist ≤ edges[c'].distance` — whichever search branch
+is taken (`linF`, `linB` are arbitrary: the float heuristic only selects them). -/
+theorem move_cursor_in_bounds (es : List (Edge K)) (c : Nat) (dist : K) (linF linB : Bool)
+    (h0 : dAt es 0 = 0) (hmono : Mono es) (hc : c < es.length) (hL : 0 < length es)
+    (hd0 : 0 ≤ dist) (hd1 : dist ≤ length es) :
+    1 ≤ moveCursorWith linF linB es c dist ∧ moveCursorWith linF linB es c dist < es.length ∧
+    dAt es (moveCursorWith linF linB es c dist - 1) ≤ dist ∧
+    dist ≤ dAt es (moveCursorWith linF linB es c dist) := by
+  unfold moveCursorWith
+  by_cases hz : dist = 0
+  · have : (dist == (Scalar.zero : K)) = true := by
+      rw [sc_beq]; simpa using hz
+    rw [if_pos this]
+    have hlen1 : 1 < es.length := by
+      by_contra h
+      have : es.length - 1 = 0 := by omega
+      rw [length_eq es (by omega), this, h0] at hL
+      exact lt_irrefl _ hL
+    refine ⟨le_refl _, hlen1, ?_, ?_⟩
+    · simp [h0, hz]
+    · rw [hz, ← h0]; exact hmono 0 1 (by omega) hlen1
+  · have : ¬ ((dist == (Scalar.zero : K)) = true) := by
+      rw [sc_beq]; simpa using hz
+    rw [if_neg this]
+    by_cases hib : inBounds es c dist
+    · rw [if_pos hib]
+      exact ⟨Nat.one_le_iff_ne_zero.mpr hib.1, hc, hib.2.1, hib.2.2⟩
+    · rw [if_neg hib]
+      have hpos : 0 < dist := lt_of_le_of_ne hd0 (Ne.symm hz)
+      have := search_in_bounds es c dist linF linB h0 hc hpos hd1 hib
+      exact ⟨this.1, this.2.1, le_of_lt this.2.2.1, this.2.2.2⟩
+
+/-- the cursor as it really moves (heuristic-selected branches) is an instance -/
+theorem move_cursor_in_bounds_heuristic (es : List (Edge K)) (c : Nat) (dist : K)
+    (h0 : dAt es 0 = 0) (hmono : Mono es) (hc : c < es.length) (hL : 0 < length es)
+    (hd0 : 0 ≤ dist) (hd1 : dist ≤ length es) :
+    1 ≤ moveCursor es c dist ∧ moveCursor es c dist < es.length ∧
+    dAt es (moveCursor es c dist - 1) ≤ dist ∧ dist ≤ dAt es (moveCursor es c dist) :=
+  move_cursor_in_bounds es c dist _ _ h0 hmono hc hL hd0 hd1
+
+/-! ### history independence -/
+
+/-- on a non-decreasing table a strict bracket determines the cursor -/
+theorem cursor_unique (es : List (Edge K)) (hmono : Mono es) (dist : K) (c k : Nat)
+    (hc1 : 1 ≤ c) (hc : c < es.length) (h1 : dAt es (c - 1) ≤ dist) (h2 : dist ≤ dAt es c)
+    (hk1 : 1 ≤ k) (hk : k < es.length) (hlt : dAt es (k - 1) < dist) (hlt' : dist < dAt es k) :
+    c = k := by
+  by_contra hne
+  rcases Nat.lt_or_gt_of_ne hne with h | h
+  · have := hmono c (k - 1) (by omega) (by omega)
+    exact absurd (lt_of_le_of_lt (le_trans h2 this) hlt) (lt_irrefl _)
+  · have := hmono k (c - 1) (by omega) (by omega)
+    exact absurd (lt_of_lt_of_le hlt' (le_trans this h1)) (lt_irrefl _)
+
+/-- **sample_history_independent (cursor).**  Where the table is strictly increasing around
+`dist` (`edges[k-1].distance < dist < edges[k].distance`), the cursor after `move_cursor(dist)` is
+`k` — for every previous cursor (i.e. every query history) and every choice of search branch. -/
+theorem cursor_history_independent (es : List (Edge K)) (c : Nat) (dist : K) (linF linB : Bool)
+    (h0 : dAt es 0 = 0) (hmono : Mono es) (hc : c < es.length) (hL : 0 < length es)
+    (hd0 : 0 ≤ dist) (hd1 : dist ≤ length es)
+    (k : Nat) (hk1 : 1 ≤ k) (hk : k < es.length) (hlt : dAt es (k - 1) < dist) (hlt' : dist < dAt es k) :
+    moveCursorWith linF linB es c dist = k := by
+  have := move_cursor_in_bounds es c dist linF linB h0 hmono hc hL hd0 hd1
+  exact cursor_unique es hmono dist _ k this.1 this.2.1 this.2.2.1 this.2.2.2 hk1 hk hlt hlt'
+
+/-- **sample_history_independent.**  The result of `sample_impl` (position, tangent, attributes,
+or panic) does not depend on the cursor left behind by previous queries, at every distance whose
+clamped value lies strictly inside a table interval. -/
+theorem sample_history_independent [Transc K] (m : M K) (c1 c2 : Nat) (normalized : Bool) (d : K)
+    (h0 : dAt m.edges 0 = 0) (hmono : Mono m.edges)
+    (hc1 : c1 < m.edges.length) (hc2 : c2 < m.edges.length)
+    (hd0 : 0 ≤ clampDist normalized (length m.edges) d)
+    (hd1 : clampDist normalized (length m.edges) d ≤ length m.edges)
+    (k : Nat) (hk1 : 1 ≤ k) (hk : k < m.edges.length)
+    (hlt : dAt m.edges (k - 1) < clampDist normalized (length m.edges) d)
+    (hlt' : clampDist normalized (length m.edges) d < dAt m.edges k) :
+    (sampleImpl m c1 normalized d).2 = (sampleImpl m c2 normalized d).2 ∧
+    (sampleImpl m c1 normalized d).1 = (sampleImpl m c2 normalized d).1 := by
+  have hL : 0 < length m.edges := by
+    have a := hmono 0 (k - 1) (by omega) (by omega)
+    rw [h0] at a
+    exact lt_of_lt_of_le (lt_of_le_of_lt a hlt) hd1
+  have hz : ¬ ((length m.edges == (Scalar.zero : K)) = true) := by
+    rw [sc_beq]
+    have : length m.edges ≠ 0 := ne_of_gt hL
+    simpa using this
+  have e1 := cursor_history_independent m.edges c1 (clampDist normalized (length m.edges) d)
+    (heurFwd m.edges c1 (clampDist normalized (length m.edges) d))
+    (heurBwd m.edges c1 (clampDist normalized (length m.edges) d))
+    h0 hmono hc1 hL hd0 hd1 k hk1 hk hlt hlt'
+  have e2 := cursor_history_independent m.edges c2 (clampDist normalized (length m.edges) d)
+    (heurFwd m.edges c2 (clampDist normalized (length m.edges) d))
+    (heurBwd m.edges c2 (clampDist normalized (length m.edges) d))
+    h0 hmono hc2 hL hd0 hd1 k hk1 hk hlt hlt'
+  unfold sampleImpl
+  rw [if_neg hz, if_neg hz]
+  show _ ∧ moveCursor m.edges c1 _ = moveCursor m.edges c2 _
+  unfold moveCursor
+  rw [e1, e2]
+  exact ⟨rfl, rfl⟩
+
+/-! ### the parameter on the segment -/
+
+/-- **t_in_range.**  With the cursor in bounds on an entry of positive length, `t(dist)` lies
+between the parameters of the two table entries (so in `[0, 1]`). -/
+theorem t_in_range (es : List (Edge K)) (c : Nat) (dist : K)
+    (h1 : dAt es (c - 1) ≤ dist) (h2 : dist ≤ dAt es c) (hpos : dAt es (c - 1) < dAt es c)
+    (htb : tBegin es c ≤ (eAt es c).t) :
+    tBegin es c ≤ tParam es c dist ∧ tParam es c dist ≤ (eAt es c).t := by
+  unfold tParam
+  have hden : 0 < dAt es c - dAt es (c - 1) := sub_pos.mpr hpos
+  have hr0 : 0 ≤ (dist - dAt es (c - 1)) / (dAt es c - dAt es (c - 1)) :=
+    div_nonneg (sub_nonneg.mpr h1) (le_of_lt hden)
+  have hr1 : (dist - dAt es (c - 1)) / (dAt es c - dAt es (c - 1)) ≤ 1 :=
+    (div_le_one hden).mpr (by linarith)
+  have hw : 0 ≤ (eAt es c).t - tBegin es c := sub_nonneg.mpr htb
+  constructor
+  · have := mul_nonneg hw hr0
+    linarith
+  · have := mul_le_mul_of_nonneg_left hr1 hw
+    linarith
+
+/-- **sample_at_distance (1-D).**  On a polyline entry (`t_begin = 0`, `t_end = 1`) the parameter
+is the arclength fraction: walking `t · (edge length)` from the entry's start distance gives `dist`. -/
+theorem sample_at_distance_1d (es : List (Edge K)) (c : Nat) (dist : K)
+    (hpos : dAt es (c - 1) < dAt es c) (htb : tBegin es c = 0) (hte : (eAt es c).t = 1) :
+    dAt es (c - 1) + tParam es c dist * (dAt es c - dAt es (c - 1)) = dist := by
+  unfold tParam
+  rw [htb, hte]
+  have hden : dAt es c - dAt es (c - 1) ≠ 0 := ne_of_gt (sub_pos.mpr hpos)
+  field_simp
+  ring
+
+/-- **sample_at_distance.**  The sampled position `from.lerp(to, t)` lies on the edge at distance
+`dist − edges[c-1].distance` from the edge's start (squared form: no square root needed), given
+that the table entry's length is the edge's length. -/
+theorem sample_at_distance (es : List (Edge K)) (c : Nat) (dist : K) (f g : P K)
+    (hpos : dAt es (c - 1) < dAt es c) (htb : tBegin es c = 0) (hte : (eAt es c).t = 1)
+    (hlen : (dAt es c - dAt es (c - 1)) * (dAt es c - dAt es (c - 1)) = (g - f).sqLen) :
+    ((f.lerp g (tParam es c dist)) - f).sqLen
+      = (dist - dAt es (c - 1)) * (dist - dAt es (c - 1)) := by
+  have h := sample_at_distance_1d es c dist hpos htb hte
+  have e : ((f.lerp g (tParam es c dist)) - f).sqLen
+      = tParam es c dist * tParam es c dist * (g - f).sqLen := by
+    geom_ring
+  rw [e, ← hlen]
+  have : dist - dAt es (c - 1) = tParam es c dist * (dAt es c - dAt es (c - 1)) := by
+    linarith
+  rw [this]
+  ring
+
+/-! ### split_range: lengths add up (1-D) -/
+
+/-- sum of the first `n` event lengths -/
+def pre (l : List K) (n : Nat) : K := (l.take n).sum
+/-- length of event `i` (0 for `Begin`/open `End`/out of range) -/
+def evLen (l : List K) (i : Nat) : K := l.getD i 0
+
+/-- 1-D length of what one `add_segment` call emits: the parameter range times the event's length -/
+def pieceLen (l : List K) (p : Piece K) : K :=
+  match p.range with
+  | some (a, b) => (b - a) * evLen l p.seg
+  | none => evLen l p.seg
+
+def piecesLen (l : List K) (ps : List (Piece K)) : K := (ps.map (pieceLen l)).sum
+
+/-- The edge table agrees with the event lengths `l` (this is what `initialize` establishes, see
+`init1_coherent`): entry `k` carries the sum of the lengths up to and including its event, the
+entry before it the sum of the lengths before its event. -/
+def Coherent (es : List (Edge K)) (l : List K) : Prop :=
+  ∀ k, 1 ≤ k → k < es.length →
+    dAt es k = pre l ((eAt es k).index + 1) ∧ dAt es (k - 1) = pre l (eAt es k).index
+
+theorem pre_succ (l : List K) (i : Nat) : pre l (i + 1) = pre l i + evLen l i := by
+  unfold pre evLen
+  rw [List.take_add_one, List.sum_append]
+  cases h : l[i]? with
+  | none => simp [List.getD, h]
+  | some v => simp [List.getD, h]
+
+theorem sum_range_evLen (l : List K) (n a : Nat) :
+    ((List.range' a n).map (evLen l)).sum = pre l (a + n) - pre l a := by
+  induction n generalizing a with
+  | zero => simp
+  | succ n ih =>
+    rw [List.range'_succ, List.map_cons, List.sum_cons, ih (a + 1), pre_succ l a]
+    have : a + 1 + n = a + (n + 1) := by omega
+    rw [this]
+    ring
+
+/-- **split length (1-D).**  With both cursors in bounds on polyline entries of positive length of
+a coherent table, the pieces `split_range` hands to `add_segment` for the clamped range `s..e`
+have total length `e − s`. -/
+theorem split_pieces_length (es : List (Edge K)) (l : List K) (p1 p2 : Nat) (s e : K)
+    (hco : Coherent es l)
+    (h1 : 1 ≤ p1) (h1' : p1 < es.length) (h2 : 1 ≤ p2) (h2' : p2 < es.length)
+    (hg1 : dAt es (p1 - 1) < dAt es p1) (hg2 : dAt es (p2 - 1) < dAt es p2)
+    (ht1 : tBegin es p1 = 0) (ht1' : (eAt es p1).t = 1)
+    (ht2 : tBegin es p2 = 0) (ht2' : (eAt es p2).t = 1)
+    (hidx : (eAt es p1).index ≤ (eAt es p2).index)
+    (hsame : (eAt es p1).index = (eAt es p2).index → p1 = p2) :
+    piecesLen l (splitPieces es p1 p2 s e) = e - s := by
+  have a1 := sample_at_distance_1d es p1 s hg1 ht1 ht1'
+  have a2 := sample_at_distance_1d es p2 e hg2 ht2 ht2'
+  obtain ⟨c1, c1'⟩ := hco p1 h1 h1'
+  obtain ⟨c2, c2'⟩ := hco p2 h2 h2'
+  have l1 : evLen l (eAt es p1).index = dAt es p1 - dAt es (p1 - 1) := by
+    have := pre_succ l (eAt es p1).index
+    rw [c1, c1']; linarith
+  have l2 : evLen l (eAt es p2).index = dAt es p2 - dAt es (p2 - 1) := by
+    have := pre_succ l (eAt es p2).index
+    rw [c2, c2']; linarith
+  unfold splitPieces
+  by_cases hs : (eAt es p1).index = (eAt es p2).index
+  · rw [if_pos hs]
+    have hp := hsame hs
+    subst hp
+    simp only [piecesLen, List.map_cons, List.map_nil, List.sum_cons, List.sum_nil, pieceLen, l1]
+    linarith
+  · rw [if_neg hs]
+    have hlt : (eAt es p1).index + 1 ≤ (eAt es p2).index := by omega
+    simp only [piecesLen, List.map_cons, List.map_append, List.map_map, List.map_nil, List.sum_cons,
+      List.sum_append, List.sum_nil]
+    have hmid : (List.map (pieceLen l ∘ fun i => (⟨i, none⟩ : Piece K))
+        (List.range' ((eAt es p1).index + 1) ((eAt es p2).index - ((eAt es p1).index + 1)))).sum
+        = dAt es (p2 - 1) - dAt es p1 := by
+      have : (pieceLen l ∘ fun i => (⟨i, none⟩ : Piece K)) = evLen l := by
+        funext i; simp [pieceLen]
+      rw [this, sum_range_evLen, c1, c2']
+      have : (eAt es p1).index + 1 + ((eAt es p2).index - ((eAt es p1).index + 1)) = (eAt es p2).index := by
+        omega
+      rw [this]
+    rw [hmid]
+    simp only [pieceLen, l1, l2]
+    have z : (Scalar.zero : K) = 0 := by simp
+    have o : (Scalar.one : K) = 1 := by simp
+    rw [z, o]
+    linarith
+
+/-- **split_lengths_add.**  The pieces for `a..b` and `b..c` add up to those for `a..c`
+(1-D model; the cursor found for `b` as an end may differ from the one found for it as a start). -/
+theorem split_lengths_add (es : List (Edge K)) (l : List K) (pa pb pb' pc : Nat) (a b c : K)
+    (hco : Coherent es l)
+    (hpoly : ∀ p, 1 ≤ p → p < es.length → tBegin es p = 0 ∧ (eAt es p).t = 1)
+    (hinj : ∀ p q, 1 ≤ p → p ≤ q → q < es.length →
+      (eAt es p).index ≤ (eAt es q).index ∧ ((eAt es p).index = (eAt es q).index → p = q))
+    (ha : 1 ≤ pa) (hab : pa ≤ pb) (hab' : pa ≤ pc) (hb' : 1 ≤ pb') (hbc : pb' ≤ pc) (hc : pc < es.length)
+    (hb : pb < es.length)
+    (ga : dAt es (pa - 1) < dAt es pa) (gb : dAt es (pb - 1) < dAt es pb)
+    (gb' : dAt es (pb' - 1) < dAt es pb') (gc : dAt es (pc - 1) < dAt es pc) :
+    piecesLen l (splitPieces es pa pb a b) + piecesLen l (splitPieces es pb' pc b c)
+      = piecesLen l (splitPieces es pa pc a c) := by
+  have e1 := split_pieces_length es l pa pb a b hco ha (by omega) (by omega) hb ga gb
+    (hpoly pa ha (by omega)).1 (hpoly pa ha (by omega)).2
+    (hpoly pb (by omega) hb).1 (hpoly pb (by omega) hb).2
+    (hinj pa pb ha hab hb).1 (hinj pa pb ha hab hb).2
+  have e2 := split_pieces_length es l pb' pc b c hco hb' (by omega) (by omega) hc gb' gc
+    (hpoly pb' hb' (by omega)).1 (hpoly pb' hb' (by omega)).2
+    (hpoly pc (by omega) hc).1 (hpoly pc (by omega) hc).2
+    (hinj pb' pc hb' hbc hc).1 (hinj pb' pc hb' hbc hc).2
+  have e3 := split_pieces_length es l pa pc a c hco ha (by omega) (by omega) hc ga gc
+    (hpoly pa ha (by omega)).1 (hpoly pa ha (by omega)).2
+    (hpoly pc (by omega) hc).1 (hpoly pc (by omega) hc).2
+    (hinj pa pc ha hab' hc).1 (hinj pa pc ha hab' hc).2
+  rw [e1, e2, e3]
+  ring
+
+/-! ### the walker (1-D core of `PathWalker::edge`) -/
+
+open Lyon.Walk
+
+/-- the advancement at which callback number `k` is due: `start + Σ_{j<k} d_j`, where `d_j` is
+the answer of the `j`-th call of `Pattern::next` -/
+def cum (start : K) (pat : Pat K) : Nat → K
+  | 0 => start
+  | k + 1 => cum start pat k + (pat k).getD 0
+
+/-- walker invariant: callback number `w.k` is due at `advancement + next_distance` -/
+def Due (start : K) (pat : Pat K) (w : W1 K) : Prop :=
+  w.advancement + w.nextDistance = cum start pat w.k
+
+theorem edgeLoop_due (pat : Pat K) (invD start : K) :
+    ∀ (fuel : Nat) (w : W1 K) (distance x : K), Due start pat w →
+      (∀ h ∈ (edgeLoop pat invD fuel w distance x).hits, h.distance = cum start pat h.k) ∧
+      ((edgeLoop pat invD fuel w distance x).w.done = false →
+        Due start pat (edgeLoop pat invD fuel w distance x).w) := by
+  intro fuel
+  induction fuel with
+  | zero =>
+    intro w distance x hd
+    unfold edgeLoop
+    by_cases h : w.nextDistance ≤ distance
+    · rw [if_pos h]; exact ⟨by simp, fun _ => hd⟩
+    · rw [if_neg h]; exact ⟨by simp, fun _ => hd⟩
+  | succ n ih =>
+    intro w distance x hd
+    unfold edgeLoop
+    by_cases h : w.nextDistance ≤ distance
+    · rw [if_pos h]
+      cases hp : pat w.k with
+      | none =>
+        simp only [List.mem_singleton, forall_eq]
+        exact ⟨hd, fun hf => by simp at hf⟩
+      | some nd =>
+        simp only [consHit]
+        have hd' : Due start pat ⟨w.advancement + w.nextDistance, (Scalar.zero : K), nd, false, w.k + 1⟩ := by
+          unfold Due at *
+          simp only [cum, hp, Option.getD_some]
+          rw [hd]
+        have := ih ⟨w.advancement + w.nextDistance, (Scalar.zero : K), nd, false, w.k + 1⟩
+          (distance - w.nextDistance) (x + (w.nextDistance - w.leftover) * invD) hd'
+        refine ⟨?_, this.2⟩
+        intro hh hmem
+        rcases List.mem_cons.mp hmem with e | e
+        · rw [e]; exact hd
+        · exact this.1 hh e
+    · rw [if_neg h]; exact ⟨by simp, fun _ => hd⟩
+
+theorem edgeLoop_positions (pat : Pat K) (invD d S : K) (hd : invD * d = 1) :
+    ∀ (fuel : Nat) (w : W1 K) (distance x : K), S + x * d = w.advancement + w.leftover →
+      ∀ h ∈ (edgeLoop pat invD fuel w distance x).hits, S + h.x * d = h.distance := by
+  intro fuel
+  induction fuel with
+  | zero =>
+    intro w distance x _
+    unfold edgeLoop
+    by_cases h : w.nextDistance ≤ distance
+    · rw [if_pos h]; simp
+    · rw [if_neg h]; simp
+  | succ n ih =>
+    intro w distance x hinv
+    have key : S + (x + (w.nextDistance - w.leftover) * invD) * d = w.advancement + w.nextDistance := by
+      have : (x + (w.nextDistance - w.leftover) * invD) * d
+          = x * d + (w.nextDistance - w.leftover) * (invD * d) := by ring
+      rw [this, hd]; linarith
+    unfold edgeLoop
+    by_cases h : w.nextDistance ≤ distance
+    · rw [if_pos h]
+      cases hp : pat w.k with
+      | none =>
+        simp only [List.mem_singleton, forall_eq]
+        exact key
+      | some nd =>
+        simp only [consHit]
+        intro hh hmem
+        rcases List.mem_cons.mp hmem with e | e
+        · rw [e]; exact key
+        · refine ih ⟨w.advancement + w.nextDistance, (Scalar.zero : K), nd, false, w.k + 1⟩
+            (distance - w.nextDistance) (x + (w.nextDistance - w.leftover) * invD) ?_ hh e
+          have z : (Scalar.zero : K) = 0 := by simp
+          simp only [z, add_zero]
+          exact key
+    · rw [if_neg h]; simp
+
+/-- what is left over after an edge: `advancement + leftover` grows by exactly the edge's length -/
+theorem edgeLoop_total (pat : Pat K) (invD : K) :
+    ∀ (fuel : Nat) (w : W1 K) (distance x : K),
+      (edgeLoop pat invD fuel w distance x).fuelOut = false →
+      (edgeLoop pat invD fuel w distance x).w.done = false →
+      (edgeLoop pat invD fuel w distance x).w.advancement + (edgeLoop pat invD fuel w distance x).w.leftover
+        = w.advancement + distance := by
+  intro fuel
+  induction fuel with
+  | zero =>
+    intro w distance x
+    unfold edgeLoop
+    by_cases h : w.nextDistance ≤ distance
+    · rw [if_pos h]; simp
+    · rw [if_neg h]; simp
+  | succ n ih =>
+    intro w distance x
+    unfold edgeLoop
+    by_cases h : w.nextDistance ≤ distance
+    · rw [if_pos h]
+      cases hp : pat w.k with
+      | none => simp
+      | some nd =>
+        simp only [consHit]
+        intro hf hdn
+        have := ih ⟨w.advancement + w.nextDistance, (Scalar.zero : K), nd, false, w.k + 1⟩
+          (distance - w.nextDistance) (x + (w.nextDistance - w.leftover) * invD) hf hdn
+        rw [this]
+        simp only []
+        ring
+    · rw [if_neg h]; simp
+
+/-- **walker_visits_cumulative.**  On an edge of length `d` (not skipped, so `d ≠ 0`), starting
+at arclength `S = advancement + leftover` of the path with callback `w.k` due: every callback
+issued on this edge, number `h.k`, reports `distance = start + Σ_{j<h.k} d_j`, and is issued at
+the edge parameter `x` with `S + x·d = distance` — the point of the polyline at that arclength. -/
+theorem walker_visits_cumulative (pat : Pat K) (start : K) (fuel : Nat) (w : W1 K) (d : K)
+    (hdue : Due start pat w) (hd : ¬ d < Scalar.ofSci 1 5) (hd0 : d ≠ 0) :
+    ∀ h ∈ (edge1 pat fuel w d).hits,
+      h.distance = cum start pat h.k ∧ (w.advancement + w.leftover) + h.x * d = h.distance := by
+  unfold edge1
+  rw [if_neg hd]
+  intro h hmem
+  refine ⟨(edgeLoop_due pat _ start fuel w _ _ hdue).1 h hmem, ?_⟩
+  refine edgeLoop_positions pat (Scalar.one / d) d (w.advancement + w.leftover) ?_ fuel w _ _ ?_ h hmem
+  · have o : (Scalar.one : K) = 1 := by simp
+    rw [o]; field_simp
+  · have z : (Scalar.zero : K) = 0 := by simp
+    rw [z]; ring
+
+/-- the invariants carry over to the next edge: the next callback is still due at
+`advancement + next_distance`, and `advancement + leftover` has grown by `d` -/
+theorem walker_edge_carries (pat : Pat K) (start : K) (fuel : Nat) (w : W1 K) (d : K)
+    (hdue : Due start pat w) (hd : ¬ d < Scalar.ofSci 1 5)
+    (hf : (edge1 pat fuel w d).fuelOut = false) (hdn : (edge1 pat fuel w d).w.done = false) :
+    Due start pat (edge1 pat fuel w d).w ∧
+    (edge1 pat fuel w d).w.advancement + (edge1 pat fuel w d).w.leftover
+      = (w.advancement + w.leftover) + d := by
+  unfold edge1 at *
+  rw [if_neg hd] at *
+  refine ⟨(edgeLoop_due pat _ start fuel w _ _ hdue).2 hdn, ?_⟩
+  rw [edgeLoop_total pat _ fuel w _ _ hf hdn]
+  ring
+
+/-- **walker_needs_positive (divergence).**  A constant non-positive request `r ≤ 0` never lets
+the `while distance >= next_distance` loop end: for EVERY fuel the model's loop runs out of fuel
+(the Rust loop has no bound — it spins until the callback returns `false`). -/
+theorem walker_needs_positive (invD r : K) (hr : r ≤ 0) :
+    ∀ (fuel : Nat) (w : W1 K) (distance x : K), w.nextDistance = r → r ≤ distance →
+      (edgeLoop (fun _ => some r) invD fuel w distance x).fuelOut = true := by
+  intro fuel
+  induction fuel with
+  | zero =>
+    intro w distance x hw hle
+    unfold edgeLoop
+    rw [hw, if_pos hle]
+  | succ n ih =>
+    intro w distance x hw hle
+    unfold edgeLoop
+    rw [hw, if_pos hle]
+    simp only [consHit]
+    exact ih _ _ _ rfl (by linarith)
+
+/-- **walker terminates for positive requests** — the hypothesis the termination proof forces:
+all requests are bounded below by some `δ > 0`; then `fuel > distance/δ` iterations suffice. -/
+theorem walker_terminates_of_positive (pat : Pat K) (invD δ : K) (hδ : 0 < δ)
+    (hpat : ∀ k nd, pat k = some nd → δ ≤ nd) :
+    ∀ (fuel : Nat) (w : W1 K) (distance x : K), δ ≤ w.nextDistance → distance < fuel * δ →
+      (edgeLoop pat invD fuel w distance x).fuelOut = false := by
+  intro fuel
+  induction fuel with
+  | zero =>
+    intro w distance x hw hlt
+    unfold edgeLoop
+    have : ¬ w.nextDistance ≤ distance := by
+      simp only [Nat.cast_zero, zero_mul] at hlt
+      intro h; linarith
+    rw [if_neg this]
+  | succ n ih =>
+    intro w distance x hw hlt
+    unfold edgeLoop
+    by_cases h : w.nextDistance ≤ distance
+    · rw [if_pos h]
+      cases hp : pat w.k with
+      | none => simp
+      | some nd =>
+        simp only [consHit]
+        refine ih _ _ _ (hpat _ _ hp) ?_
+        push_cast at hlt
+        linarith
+    · rw [if_neg h]
+
+/-! ### what `split_range` sends to its output builder -/
+
+theorem addSegments_nest (m : M K) : ∀ (ps : List (Piece K)) (inSub : Bool),
+    Path.nestState true (addSegments m ps inSub) = some true := by
+  intro ps
+  induction ps with
+  | nil => intro _; simp [addSegments, Path.nestState]
+  | cons p r ih =>
+    intro inSub
+    unfold addSegments
+    rw [Path.nestState_append]
+    have h1 : Path.nestState true (addSegment m p inSub).1 = some true := by
+      unfold addSegment
+      cases toSegment (evAt m p.seg) with
+      | none => simp [Path.nestState]
+      | some q =>
+        obtain ⟨f, g, af, at_⟩ := q
+        cases hr : p.range with
+        | none => cases inSub <;> simp [segCalls, Path.nestState]
+        | some ab => obtain ⟨a, b⟩ := ab; cases inSub <;> simp [segCalls, Path.nestState]
+    rw [h1]
+    exact ih _
+
+/-- **split_trace_wellnested.**  Whatever the path, the cursor, the sample type and the range:
+the calls `split_range` makes on its output builder form `(begin edge* end)*`. -/
+theorem split_trace_wellnested [Transc K] (m : M K) (c : Nat) (normalized : Bool) (a b : K) :
+    ∀ calls, (splitRange m c normalized a b).2 = .ok calls → Path.WellNested calls := by
+  intro calls h
+  unfold splitRange at h
+  split at h
+  · split at h
+    · simp only [splitTail] at h
+      injection h with h
+      subst h
+      show Path.wellNestedFrom false _ = true
+      rw [Path.wellNestedFrom_iff_nestState]
+      simp only [Path.nestState]
+      rw [Path.nestState_append, addSegments_nest]
+      simp [Path.nestState]
+    · cases h
+  · injection h with h
+    subst h
+    show Path.wellNestedFrom false _ = true
+    rfl
+
+/-! ### length -/
+
+/-- the length one event contributes -/
+def stepLen : Step K → K
+  | .skip => 0
+  | .mark => 0
+  | .add l => l
+
+def total (steps : List (Step K)) : K := (steps.map stepLen).sum
+
+theorem init1_last (steps : List (Step K)) : ∀ (d : K) (i : Nat),
+    ((init1 d i steps).getLast?.map (·.distance)).getD d = d + total steps := by
+  induction steps with
+  | nil => intro d i; simp [init1, total]
+  | cons st r ih =>
+    intro d i
+    cases st with
+    | skip =>
+      simp only [init1, total, List.map_cons, List.sum_cons, stepLen, zero_add]
+      exact ih d (i + 1)
+    | mark =>
+      simp only [init1, total, List.map_cons, List.sum_cons, stepLen, zero_add, List.getLast?_cons]
+      have := ih d (i + 1)
+      cases hl : (init1 d (i + 1) r).getLast? with
+      | none => rw [hl] at this; simpa [total] using this
+      | some e => rw [hl] at this; simpa [total] using this
+    | add l =>
+      simp only [init1, total, List.map_cons, List.sum_cons, stepLen, List.getLast?_cons]
+      have := ih (d + l) (i + 1)
+      cases hl : (init1 (d + l) (i + 1) r).getLast? with
+      | none => rw [hl] at this; simp [total] at this ⊢; linarith
+      | some e => rw [hl] at this; simp [total] at this ⊢; linarith
+
+theorem length_eq_last (es : List (Edge K)) : length es = (es.getLast?.map (·.distance)).getD 0 := by
+  unfold length
+  cases es with
+  | nil => simp
+  | cons a r =>
+    simp only [List.isEmpty_cons, Bool.false_eq_true, if_false, dAt, eAt, List.getLast?_eq_getElem?]
+    simp [List.getD_eq_getElem?_getD]
+
+/-- **length_is_fold.**  The measured length (last table entry) is the sum of the lengths of the
+edges, whatever `Begin`/`End` events lie in between. -/
+theorem length_is_fold (steps : List (Step K)) : length (init1 (Scalar.zero : K) 0 steps) = total steps := by
+  rw [length_eq_last]
+  have z : (Scalar.zero : K) = 0 := by simp
+  have := init1_last steps (0 : K) 0
+  rw [z]
+  simpa using this
+
+theorem approxLengthFrom_eq [Transc K] (evs : List (Ev K)) : ∀ l : K,
+    approxLengthFrom l evs = l + total (evs.map stepOf) := by
+  induction evs with
+  | nil => intro l; simp [approxLengthFrom, total]
+  | cons e r ih =>
+    intro l
+    have flip : ∀ p q : P K, vlen (p - q) = vlen (q - p) := by
+      intro p q
+      unfold vlen
+      congr 1
+      simp only [geom]
+      ring
+    cases e with
+    | begin p a => simp only [approxLengthFrom, ih, total, List.map_cons, stepOf, stepLen, List.sum_cons]; ring
+    | line f g af at_ =>
+      simp only [approxLengthFrom, ih, total, List.map_cons, stepOf, stepLen, List.sum_cons]
+      rw [flip g f]; ring
+    | end_ la fi al af cl =>
+      cases cl with
+      | true =>
+        simp only [approxLengthFrom, ih, total, List.map_cons, stepOf, stepLen, List.sum_cons]
+        rw [flip fi la]; ring
+      | false => simp only [approxLengthFrom, ih, total, List.map_cons, stepOf, stepLen, List.sum_cons]; ring
+
+/-- **length agrees with `approximate_length`** on polyline paths (same sum of `sqrt`s) -/
+theorem length_eq_approx_length [Transc K] (evs : List (Ev K)) :
+    length (initTable evs) = approxLength evs := by
+  unfold initTable approxLength
+  rw [length_is_fold, approxLengthFrom_eq]
+  have z : (Scalar.zero : K) = 0 := by simp
+  rw [z]; ring
+
+/-! ### the defect: `move_cursor(0.0)` puts the cursor on entry 1 whatever that entry is -/
+
+/-- `begin(0,0) end(false); begin(1,0) line_to(2,0) end(false)` -/
+def witnessCmds : List (Cmd K) :=
+  [.begin ⟨0, 0⟩ [], .end_ false, .begin ⟨1, 0⟩ [], .line ⟨2, 0⟩ [], .end_ false]
+
+/-- **cursor_on_begin_edge_witness.**  A single-point sub-path followed by a line: the table is
+`[Begin@0: 0, Begin@2: 0, Line@3: 1]`; `sample(0.0)` (first query on a fresh sampler, or after any
+other query) moves the cursor to entry 1 — a `Begin` entry — and the segment dispatch falls
+through to `unreachable!()`.  The property "sampling at distance d returns a point on the path"
+fails here; confirmed on the implementation (harness family `sampler`, witness cases). -/
+theorem cursor_on_begin_edge_witness [Transc K] (hs : Transc.sqrt (1 : K) = 1) (c : Nat) :
+    (sampleImpl (Measure.mk 0 (witnessCmds (K := K))) c false 0).1 = 1 ∧
+    (sampleImpl (Measure.mk 0 (witnessCmds (K := K))) c false 0).2 = .panic ∧
+    (match evAt (Measure.mk 0 (witnessCmds (K := K))) (eAt (Measure.mk 0 (witnessCmds (K := K))).edges 1).index with
+      | .begin _ _ => True | _ => False) := by
+  have hv : vlen ((⟨1, 0⟩ : P K) - ⟨2, 0⟩) = 1 := by
+    unfold vlen
+    simp only [geom]
+    norm_num [hs]
+  have hE : (Measure.mk 0 (witnessCmds (K := K))).edges
+      = [⟨0, 0, 1⟩, ⟨0, 2, 1⟩, ⟨1, 3, 1⟩] := by
+    simp [Measure.mk, witnessCmds, evsOf, evsFrom, initTable, init1, stepOf, hv]
+  have hV : (Measure.mk 0 (witnessCmds (K := K))).evs
+      = [.begin ⟨0, 0⟩ [], .end_ ⟨0, 0⟩ ⟨0, 0⟩ [] [] false, .begin ⟨1, 0⟩ [],
+         .line ⟨1, 0⟩ ⟨2, 0⟩ [] [], .end_ ⟨2, 0⟩ ⟨1, 0⟩ [] [] false] := by
+    simp [Measure.mk, witnessCmds, evsOf, evsFrom]
+  have hL : length (Measure.mk 0 (witnessCmds (K := K))).edges = 1 := by
+    rw [hE]; simp [length, dAt, eAt]
+  have hcl : clampDist false (1 : K) 0 = 0 := by
+    simp [clampDist, sc_max, sc_min]
+  have hmc : moveCursor (Measure.mk 0 (witnessCmds (K := K))).edges c 0 = 1 := by
+    unfold moveCursor moveCursorWith
+    have : ((0 : K) == (Scalar.zero : K)) = true := by rw [sc_beq]; simp
+    rw [if_pos this]
+  have hz : ¬ (((1 : K) == (Scalar.zero : K)) = true) := by rw [sc_beq]; simp
+  unfold sampleImpl
+  rw [hL, if_neg hz, hcl, hmc]
+  refine ⟨rfl, ?_, ?_⟩
+  · simp [sampleOn, evAt, hV, hE, eAt, toSegment]
+  · simp [evAt, hV, hE, eAt]
+
+/-- a cursor is *good* if it is the initial one or rests on an entry of positive length -/
+def GoodCursor (es : List (Edge K)) (c : Nat) : Prop := c = 0 ∨ dAt es (c - 1) < dAt es c
+
+/-- **cursor_on_positive_edge_partial.**  If the first entry after the initial `Begin` has positive
+length (`edges[0].distance < edges[1].distance` — this is what excludes the witness above: no
+single-point / zero-length first edge), then after every query the cursor rests on an entry of
+positive length, whatever the history and the search branches.  `Begin` entries other than the
+first have length zero, so the cursor is never on one and `sample` never reaches `unreachable!()`;
+the parameter `t` is then well defined (`t_in_range`, `sample_at_distance`).
+Missing w.r.t. the full property: tables with `edges[1].distance = 0`, where it fails. -/
+theorem cursor_on_positive_edge_partial (es : List (Edge K)) (c : Nat) (dist : K) (linF linB : Bool)
+    (h0 : dAt es 0 = 0) (hfirst : dAt es 0 < dAt es 1) (hc : c < es.length)
+    (hd0 : 0 ≤ dist) (hd1 : dist ≤ length es) (hgood : GoodCursor es c) :
+    dAt es (moveCursorWith linF linB es c dist - 1) < dAt es (moveCursorWith linF linB es c dist) := by
+  unfold moveCursorWith
+  by_cases hz : dist = 0
+  · have : (dist == (Scalar.zero : K)) = true := by rw [sc_beq]; simpa using hz
+    rw [if_pos this]
+    simpa using hfirst
+  · have : ¬ ((dist == (Scalar.zero : K)) = true) := by rw [sc_beq]; simpa using hz
+    rw [if_neg this]
+    by_cases hib : inBounds es c dist
+    · rw [if_pos hib]
+      rcases hgood with h | h
+      · exact absurd h hib.1
+      · exact h
+    · rw [if_neg hib]
+      have hpos : 0 < dist := lt_of_le_of_ne hd0 (Ne.symm hz)
+      have := search_in_bounds es c dist linF linB h0 hc hpos hd1 hib
+      exact lt_of_lt_of_le this.2.2.1 this.2.2.2
+
+/-- the cursors visited by a whole query history (distances already clamped), with arbitrary
+branch selections per query -/
+noncomputable def cursorsAfter (es : List (Edge K)) : Nat → List (K × Bool × Bool) → List Nat
+  | _, [] => []
+  | c, (d, lf, lb) :: r => moveCursorWith lf lb es c d :: cursorsAfter es (moveCursorWith lf lb es c d) r
+
+/-- **history form of the partial theorem**: over any sequence of queries on one sampler -/
+theorem cursor_history_on_positive_edges_partial (es : List (Edge K))
+    (h0 : dAt es 0 = 0) (hmono : Mono es) (hL : 0 < length es) (hfirst : dAt es 0 < dAt es 1) :
+    ∀ (qs : List (K × Bool × Bool)) (c : Nat), c < es.length → GoodCursor es c →
+      (∀ q ∈ qs, 0 ≤ q.1 ∧ q.1 ≤ length es) →
+      ∀ c' ∈ cursorsAfter es c qs, 1 ≤ c' ∧ c' < es.length ∧ dAt es (c' - 1) < dAt es c' := by
+  intro qs
+  induction qs with
+  | nil => intro c _ _ _ c' h; simp [cursorsAfter] at h
+  | cons q r ih =>
+    intro c hc hg hq c' hmem
+    obtain ⟨d, lf, lb⟩ := q
+    have hd := hq (d, lf, lb) (by simp)
+    have hb := move_cursor_in_bounds es c d lf lb h0 hmono hc hL hd.1 hd.2
+    have hp := cursor_on_positive_edge_partial es c d lf lb h0 hfirst hc hd.1 hd.2 hg
+    simp only [cursorsAfter, List.mem_cons] at hmem
+    rcases hmem with e | e
+    · rw [e]; exact ⟨hb.1, hb.2.1, hp⟩
+    · exact ih _ hb.2.1 (Or.inr hp) (fun q hq' => hq q (List.mem_cons_of_mem _ hq')) c' e
+
+/-! ### `initialize` establishes the hypotheses used above -/
+
+theorem pre_cons (x : K) (ls : List K) (n : Nat) : pre (x :: ls) (n + 1) = x + pre ls n := by
+  simp [pre]
+
+theorem eAt_cons_succ (e : Edge K) (es : List (Edge K)) (k : Nat) : eAt (e :: es) (k + 1) = eAt es k := by
+  simp [eAt]
+
+/-- Invariant of the table construction, for the table built from running distance `d` and event
+index `i`: entry `k` belongs to an event `≥ i`, carries `d` + the lengths through its event, the
+entry before it (or `d` itself for the first entry) carries `d` + the lengths before its event,
+and its parameter is 1. -/
+theorem init1_inv (steps : List (Step K)) : ∀ (d : K) (i k : Nat), k < (init1 d i steps).length →
+    i ≤ (eAt (init1 d i steps) k).index ∧
+    dAt (init1 d i steps) k
+      = d + pre (steps.map stepLen) ((eAt (init1 d i steps) k).index + 1 - i) ∧
+    (if k = 0 then d else dAt (init1 d i steps) (k - 1))
+      = d + pre (steps.map stepLen) ((eAt (init1 d i steps) k).index - i) ∧
+    (eAt (init1 d i steps) k).t = 1 := by
+  induction steps with
+  | nil => intro d i k h; simp [init1] at h
+  | cons st r ih =>
+    intro d i k hk
+    -- `mark` is `add 0`
+    have key : ∀ (l : K), (∀ (d' : K), init1 d' i (st :: r) = ⟨d' + l, i, Scalar.one⟩ :: init1 (d' + l) (i + 1) r) →
+        stepLen st = l →
+        (i ≤ (eAt (init1 d i (st :: r)) k).index ∧
+        dAt (init1 d i (st :: r)) k
+          = d + pre ((st :: r).map stepLen) ((eAt (init1 d i (st :: r)) k).index + 1 - i) ∧
+        (if k = 0 then d else dAt (init1 d i (st :: r)) (k - 1))
+          = d + pre ((st :: r).map stepLen) ((eAt (init1 d i (st :: r)) k).index - i) ∧
+        (eAt (init1 d i (st :: r)) k).t = 1) := by
+      intro l hinit hl
+      rw [hinit d] at hk ⊢
+      simp only [List.map_cons, hl]
+      cases k with
+      | zero =>
+        have o : (Scalar.one : K) = 1 := by simp
+        simp [eAt, dAt, pre, o]
+      | succ k' =>
+        have hk' : k' < (init1 (d + l) (i + 1) r).length := by simpa using hk
+        obtain ⟨h1, h2, h3, h4⟩ := ih (d + l) (i + 1) k' hk'
+        rw [eAt_cons_succ]
+        obtain ⟨j, hj⟩ := Nat.exists_eq_add_of_le h1
+        refine ⟨by omega, ?_, ?_, h4⟩
+        · show (eAt (_ :: _) (k' + 1)).distance = _
+          rw [eAt_cons_succ]
+          have e1 : (eAt (init1 (d + l) (i + 1) r) k').index + 1 - (i + 1) = j + 1 := by omega
+          have e2 : (eAt (init1 (d + l) (i + 1) r) k').index + 1 - i = (j + 1) + 1 := by omega
+          rw [e1] at h2
+          rw [e2, pre_cons]
+          show dAt _ k' = _
+          rw [h2]; ring
+        · have e1 : (eAt (init1 (d + l) (i + 1) r) k').index - (i + 1) = j := by omega
+          have e2 : (eAt (init1 (d + l) (i + 1) r) k').index - i = j + 1 := by omega
+          rw [e1] at h3
+          rw [e2, pre_cons]
+          simp only [Nat.add_one_ne_zero, if_false, Nat.add_sub_cancel]
+          cases k' with
+          | zero =>
+            simp only [if_true] at h3
+            simp only [dAt, eAt, List.getD_cons_zero]
+            linarith
+          | succ k'' =>
+            simp only [Nat.add_one_ne_zero, if_false, Nat.add_sub_cancel] at h3
+            show (eAt (_ :: _) (k'' + 1)).distance = _
+            rw [eAt_cons_succ]
+            show dAt _ k'' = _
+            rw [h3]; ring
+    cases st with
+    | skip =>
+      simp only [init1] at hk ⊢
+      obtain ⟨h1, h2, h3, h4⟩ := ih d (i + 1) k hk
+      obtain ⟨j, hj⟩ := Nat.exists_eq_add_of_le h1
+      simp only [List.map_cons, stepLen]
+      refine ⟨by omega, ?_, ?_, h4⟩
+      · have e1 : (eAt (init1 d (i + 1) r) k).index + 1 - (i + 1) = j + 1 := by omega
+        have e2 : (eAt (init1 d (i + 1) r) k).index + 1 - i = (j + 1) + 1 := by omega
+        rw [e1] at h2
+        rw [e2, pre_cons, h2]; ring
+      · have e1 : (eAt (init1 d (i + 1) r) k).index - (i + 1) = j := by omega
+        have e2 : (eAt (init1 d (i + 1) r) k).index - i = j + 1 := by omega
+        rw [e1] at h3
+        rw [e2, pre_cons, h3]; ring
+    | mark =>
+      exact key 0 (fun d' => by simp [init1]) rfl
+    | add l =>
+      exact key l (fun d' => by simp [init1]) rfl
+
+/-- **`initialize` establishes coherence** (the hypothesis of `split_pieces_length` /
+`split_lengths_add`), polyline entries have `t = 1`, and the table starts at the initial distance. -/
+theorem init1_coherent (steps : List (Step K)) :
+    Coherent (init1 (0 : K) 0 steps) (steps.map stepLen) ∧
+    (∀ k, k < (init1 (0 : K) 0 steps).length → (eAt (init1 (0 : K) 0 steps) k).t = 1) := by
+  constructor
+  · intro k hk1 hk
+    obtain ⟨_, h2, h3, _⟩ := init1_inv steps (0 : K) 0 k hk
+    have : k ≠ 0 := by omega
+    simp only [this, if_false] at h3
+    simp only [Nat.sub_zero, zero_add] at h2 h3
+    exact ⟨h2, h3⟩
+  · intro k hk
+    exact (init1_inv steps (0 : K) 0 k hk).2.2.2
+
+/-! ### non-vacuity: concrete instances of the hypotheses (over ℚ) -/
+
+section Examples
+
+/-- table of `begin(0,0) line_to(1,0) line_to(1,2) end(false)`: distances 0, 1, 3 -/
+noncomputable def exTable : List (Edge ℚ) := [⟨0, 0, 1⟩, ⟨1, 1, 1⟩, ⟨3, 2, 1⟩]
+
+theorem exTable_dAt : dAt exTable 0 = 0 ∧ dAt exTable 1 = 1 ∧ dAt exTable 2 = 3 := by
+  simp [exTable, dAt, eAt]
+
+theorem exTable_mono : Mono exTable := by
+  intro i j hij hj
+  have hj' : j < 3 := by simpa [exTable] using hj
+  obtain ⟨a0, a1, a2⟩ := exTable_dAt
+  interval_cases j <;> interval_cases i <;> simp_all
+
+/-- hypotheses of `move_cursor_in_bounds`, `cursor_history_independent`,
+`sample_history_independent`, `cursor_on_positive_edge_partial`: a monotone table starting at 0
+with positive length, a cursor in range, `dist = 2` strictly inside the last entry. -/
+example : dAt exTable 0 = 0 ∧ Mono exTable ∧ (1 : Nat) < exTable.length ∧ 0 < length exTable ∧
+    (0 : ℚ) ≤ 2 ∧ (2 : ℚ) ≤ length exTable ∧ dAt exTable (2 - 1) < 2 ∧ (2 : ℚ) < dAt exTable 2 ∧
+    dAt exTable 0 < dAt exTable 1 ∧ GoodCursor exTable 0 := by
+  obtain ⟨a0, a1, a2⟩ := exTable_dAt
+  have hl : length exTable = 3 := by rw [length_eq _ (by simp [exTable])]; simpa [exTable] using a2
+  refine ⟨a0, exTable_mono, by simp [exTable], by rw [hl]; norm_num, by norm_num, by rw [hl]; norm_num,
+    by rw [a1]; norm_num, by rw [a2]; norm_num, by rw [a0, a1]; norm_num, Or.inl rfl⟩
+
+/-- and the conclusion is not trivial there: from cursor 0, by binary search, the cursor becomes 2 -/
+example : moveCursorWith false false exTable 0 (2 : ℚ) = 2 := by
+  obtain ⟨a0, a1, a2⟩ := exTable_dAt
+  have hl : length exTable = 3 := by rw [length_eq _ (by simp [exTable])]; simpa [exTable] using a2
+  exact cursor_history_independent exTable 0 2 false false a0 exTable_mono (by simp [exTable])
+    (by rw [hl]; norm_num) (by norm_num) (by rw [hl]; norm_num) 2 (by norm_num) (by simp [exTable])
+    (by rw [a1]; norm_num) (by rw [a2]; norm_num)
+
+/-- hypotheses of `t_in_range` / `sample_at_distance_1d` / `split_pieces_length` on that table:
+polyline entries (`t_begin = 0`, `t = 1`), positive gaps, coherence with the event lengths 0, 1, 2 -/
+example : tBegin exTable 2 = 0 ∧ (eAt exTable 2).t = 1 ∧ dAt exTable (2 - 1) < dAt exTable 2 ∧
+    tBegin exTable 2 ≤ (eAt exTable 2).t ∧ Coherent exTable [0, 1, 2] := by
+  obtain ⟨a0, a1, a2⟩ := exTable_dAt
+  refine ⟨by simp [tBegin, exTable, eAt], by simp [exTable, eAt], by rw [a1, a2]; norm_num,
+    by simp [tBegin, exTable, eAt], ?_⟩
+  intro k hk1 hk
+  have hk' : k < 3 := by simpa [exTable] using hk
+  interval_cases k
+  · simp [exTable, dAt, eAt, pre]
+  · simp [exTable, dAt, eAt, pre]; norm_num
+
+/-- hypotheses of the walker theorems: a fresh walker (`start = 1/2`) has its first callback due,
+an edge of length 1 is not skipped, and requests `≥ 1/4` with fuel 8 cover distance `< 2` -/
+example : Due (1/2 : ℚ) (Walk.regular (1/4 : ℚ) 100) ⟨0, 0, 1/2, false, 0⟩ ∧
+    ¬ ((1 : ℚ) < Scalar.ofSci 1 5) ∧ (1 : ℚ) ≠ 0 ∧
+    (∀ k nd, Walk.regular (1/4 : ℚ) 100 k = some nd → (1/4 : ℚ) ≤ nd) ∧ ((3/2 : ℚ) < (8 : Nat) * (1/4 : ℚ)) := by
+  refine ⟨by simp [Due, cum], ?_, by norm_num, ?_, by norm_num⟩
+  · simp only [geom]; norm_num
+  · intro k nd h
+    simp only [Walk.regular] at h
+    split at h
+    · injection h with h; rw [← h]
+    · cases h
+
+/-- hypothesis of `walker_needs_positive`: the zero request of `RegularPattern { interval: 0.0 }` -/
+example : (0 : ℚ) ≤ 0 ∧ (⟨0, 0, 0, false, 0⟩ : Walk.W1 ℚ).nextDistance = 0 := ⟨le_refl _, rfl⟩
+
+/-- hypothesis of `cursor_on_begin_edge_witness`: a `Transc ℚ` whose `sqrt` fixes 1 -/
+example : ∃ T : Transc ℚ, @Transc.sqrt ℚ T 1 = 1 :=
+  ⟨{ sqrt := id, cbrt := id, sin := id, cos := id, tan := id, acos := id, atan2 := fun a _ => a,
+     pow := fun a _ => a, log2 := id, ln := id, floor := id, ceil := id, toNat := fun _ => 0,
+     fmod := fun a _ => a, eps := 0, pi := 3, isNaN := fun _ => false, isFinite := fun _ => true }, rfl⟩
+
+end Examples
+
 end Lyon.C19
